@@ -1123,6 +1123,16 @@ fn correspondence_lines(w: &mut dyn Write, r: &mut Rng, thorough: bool) -> usize
                         lkeval_line(w, r, &bb, nch, 0);
                         cnt += 1;
                         if k == 2 { lkeval_line(w, r, &bb, 2, 1); cnt += 1; }     // auxiliary openings one short: slice panic
+                        // table and frequency columns that read the next row as well (evaluated by the constraints as the
+                        // prover evaluates them: Column::eval_with_next)
+                        let mut lks = b.spec.lookups.clone();
+                        let (tc, fc) = (lks[0].table.lin[0].0, lks[0].freq.lin[0].0);
+                        lks[0].table = ColSpec { lin: vec![(tc, 1 + r.below(5))], next: vec![(tc, 1 + r.below(5)), (fc, r.below(3))], constant: r.below(9) };
+                        lks[0].freq = ColSpec { lin: vec![(fc, 1)], next: vec![(fc, 1 + r.below(3))], constant: 0 };
+                        let spec = Arc::new(FamSpec { name: "x".into(), degree, ncols: b.spec.ncols, npi: b.spec.npi, cons: vec![], lookups: lks, ctl: false });
+                        let bb = Built { spec, rows: vec![], pis: vec![], cols: vec![] };
+                        lkeval_line(w, r, &bb, nch, 0);
+                        cnt += 1;
                     }
                 }
             }
@@ -1248,7 +1258,16 @@ pub fn run(seed: u64, tier: &str, w: &mut dyn Write) -> usize {
         let spec = Arc::new(FamSpec { name: "lookup1-table-reads-next-row".into(), degree: 2, ncols: b.spec.ncols, npi: b.spec.npi, cons: vec![], lookups: vec![l], ctl: false });
         let drv = driver(spec);
         let (po, vo, _) = pv(&drv, &cfgs[0].1, &rows, &b.pis);
-        writeln!(w, "c10info lookup1-table-reads-next-row honest = {vo} # holds={} prover={po} (table_column / frequencies_column are evaluated on the current row only by the constraints)", holds as u8).unwrap();
+        // the prover evaluates table_column / frequencies_column with their next-row part (Column::eval_table); the
+        // constraints must do the same, or a lookup that holds is unprovable
+        writeln!(w, "c10 lookup1-table-reads-next-row/n16/{} honest = {} # holds={} prover={po} verify={vo}", cfgs[0].0, accepted_iff(holds, &vo) as u8, holds as u8).unwrap();
+        cnt += 1;
+        // and a value missing from that table must still be rejected
+        let mut bad = rows.clone();
+        bad[3][0] += F::ONE;
+        let holds_bad = lookup_holds(&drv.spec.lookups[0], &bad);
+        let (po, vo, _) = pv(&drv, &cfgs[0].1, &bad, &b.pis);
+        writeln!(w, "c10 lookup1-table-reads-next-row/n16/{} corrupt:looking:0 = {} # holds={} prover={po} verify={vo}", cfgs[0].0, accepted_iff(holds_bad, &vo) as u8, holds_bad as u8).unwrap();
         cnt += 1;
     }
     // ---- cross-table lookups
